@@ -337,6 +337,9 @@ func serialise(mode readMode, req *http.Request, res *http.Response) (o output) 
 		}
 		o.Raw = get()
 		d := msggen.Decompose(o.Raw)
+		if res != nil && (res.Request != nil && res.Request.Method == "HEAD" || res.StatusCode == 304 || res.StatusCode == 204 || res.StatusCode/100 == 1) {
+			d = msggen.DecomposeBodiless(o.Raw) // no body follows the head whatever the framing headers say
+		}
 		o.Head, o.Framing, o.Body, o.Trailer = d.Head, d.Framing, d.Payload, d.Trailer
 		if d.ParseErr != "" && o.Err == "" {
 			o.Err = "unparseable output: " + d.ParseErr
@@ -414,6 +417,10 @@ func clip(s string) string {
 
 func framingTag(m *msggen.Msg) string {
 	t := m.Spec.Framing
+	if m.BodyOmitted {
+		// framing headers without a body (304, answer to HEAD)
+		return "bodiless(" + t + ")"
+	}
 	if len(m.Encoded) == 0 {
 		// Content-Length: 0 and "no framing header at all" are one class: both parse to http.NoBody. (When that
 		// marker is lost, net/http probes the body of GET-like requests with a 200 ms timer, so on a loaded
@@ -465,6 +472,9 @@ func errorTag(v variant, m *msggen.Msg) string {
 
 func snapshotTag(m *msggen.Msg) string {
 	t := m.Spec.Framing
+	if m.BodyOmitted {
+		t = "bodiless(" + t + ")"
+	}
 	if m.Spec.Trailers > 0 {
 		t += "+trailers"
 	}
@@ -484,7 +494,7 @@ type parsedMsg struct {
 	Err     string
 }
 
-func readParsed(b []byte, isReq bool, headOnly bool) (p parsedMsg) {
+func readParsed(b []byte, isReq bool, headOnly bool, forMethod string) (p parsedMsg) {
 	defer func() {
 		if r := recover(); r != nil {
 			p.Err = "panic: " + fmt.Sprint(r)
@@ -503,7 +513,7 @@ func readParsed(b []byte, isReq bool, headOnly bool) (p parsedMsg) {
 		p.Start = fmt.Sprintf("%s %s %s host=%s", req.Method, req.URL, req.Proto, req.Host)
 		p.CL, p.TE, hdr, body, tr = req.ContentLength, req.TransferEncoding, req.Header, req.Body, &req.Trailer
 	} else {
-		res, err := http.ReadResponse(br, msggen.StdRequest())
+		res, err := http.ReadResponse(br, msggen.StdRequestFor(forMethod))
 		if err != nil {
 			p.Err = "ReadResponse: " + err.Error()
 			return
@@ -539,6 +549,12 @@ type replayCase struct {
 	Part    string      `json:"part"`
 	Fault   string      `json:"fault,omitempty"`
 	Cut     int         `json:"cut,omitempty"`
+	Hist    *histCase   `json:"hist,omitempty"`  // history family
+	Stack   *stackCase  `json:"stack,omitempty"` // stack family
+}
+
+func martianTestContext(req *http.Request) (*martian.Context, func(), error) {
+	return martian.TestContext(req, nil, nil)
 }
 
 func main() {
@@ -548,7 +564,17 @@ func main() {
 
 	specs := append(msggen.BodySpace(tier), msggen.HeaderSpace(tier)...)
 	nBody := len(msggen.BodySpace(tier))
+	nHeader := len(specs) - nBody
+	specs = append(specs, msggen.EdgeSpace(tier)...)
+	nEdge := len(specs) - nBody - nHeader
 
+	parts := map[string]bool{"main": true, "fault": true, "history": true, "stack": true}
+	if p := os.Getenv("VERIF_C15_PARTS"); p != "" { // development aid: run only some families
+		parts = map[string]bool{}
+		for _, x := range strings.Split(p, ",") {
+			parts[x] = true
+		}
+	}
 	var only *replayCase
 	if f := os.Getenv("VERIF_REPLAY"); f != "" {
 		b, err := os.ReadFile(f)
@@ -594,7 +620,7 @@ func main() {
 	}
 	pending := make([][]pendingViolation, len(specs))
 
-	if only != nil && only.Part == "fault" {
+	if only != nil && (only.Part == "fault" || only.Part == "history" || only.Part == "stack") || !parts["main"] {
 		specs = nil
 	}
 	lib.Parallel(len(specs), func(i int) {
@@ -622,7 +648,7 @@ func main() {
 			if isReq {
 				req, err = m.ParseRequest()
 			} else {
-				req = msggen.StdRequest()
+				req = m.Request()
 				res, err = m.ParseResponse(req)
 				if res != nil {
 					res.Request = req
@@ -651,7 +677,8 @@ func main() {
 			if twins[mi].Err != "" {
 				violate("harness:twin_serialisation_error", fmt.Sprintf("%s via %s: unlogged twin failed: %s", spec, mode.Name, twins[mi].Err), replayCase{Spec: spec, Mode: mode.Name})
 			}
-			if !bytes.Equal(twins[mi].Body, m.Encoded) {
+			// (bodiless messages: net/http itself writes the last-chunk line after a 304 with chunked framing)
+			if !bytes.Equal(twins[mi].Body, m.Encoded) && !m.BodyOmitted {
 				violate("harness:twin_body_differs_from_ground_truth", fmt.Sprintf("%s via %s: twin body %d bytes, generator says %d", spec, mode.Name, len(twins[mi].Body), len(m.Encoded)), replayCase{Spec: spec, Mode: mode.Name})
 			}
 		}
@@ -792,8 +819,8 @@ func main() {
 					violate(fmt.Sprintf("messageview:%s:%s:snapshot_error", spec.Kind, snapshotTag(m)), fmt.Sprintf("%s with %s: snapshot/Reader failed: %v", spec, v.Name, err), rc)
 					continue
 				}
-				want := readParsed(m.Wire, isReq, headOnly)
-				gotp := readParsed(snap, isReq, headOnly)
+				want := readParsed(m.Wire, isReq, headOnly, m.ForMethod)
+				gotp := readParsed(snap, isReq, headOnly, m.ForMethod)
 				if want.Err != "" {
 					violate("harness:original_unparseable", fmt.Sprintf("%s: %s", spec, want.Err), rc)
 					continue
@@ -833,13 +860,36 @@ func main() {
 	}
 
 	var faultCov map[string]int64
-	if only == nil || only.Part == "fault" {
+	if parts["fault"] && (only == nil || only.Part == "fault") {
 		faultCov = runFaultFamily(rep, tier, workerCh, only)
 		for k, v := range faultCov {
 			rep.Coverage[k] = v
 		}
 		runs += faultCov["fault_cases"]
 		transitions += faultCov["fault_transitions"]
+	}
+
+	if parts["history"] && (only == nil || only.Part == "history") {
+		for k, v := range runHistoryFamily(rep, tier, workerCh, only) {
+			rep.Coverage[k] = v
+			switch k {
+			case "history_cases":
+				runs += v
+			case "history_transitions":
+				transitions += v
+			}
+		}
+	}
+	if parts["stack"] && (only == nil || only.Part == "stack") {
+		for k, v := range runStackFamily(rep, tier, workerCh, only) {
+			rep.Coverage[k] = v
+			switch k {
+			case "stack_cases":
+				runs += v
+			case "stack_transitions":
+				transitions += v
+			}
+		}
 	}
 
 	var states int64
@@ -853,7 +903,8 @@ func main() {
 	rep.Coverage["distinct_nontrivial"] = nontrivial
 	rep.Coverage["messages"] = len(specs)
 	rep.Coverage["messages_body_space"] = nBody
-	rep.Coverage["messages_header_space"] = len(specs) - nBody
+	rep.Coverage["messages_header_space"] = nHeader
+	rep.Coverage["messages_edge_space"] = nEdge
 	rep.Coverage["logger_variants"] = len(variants)
 	rep.Coverage["read_modes"] = len(readModes)
 	rep.Coverage["forward_runs"] = runs
@@ -866,8 +917,8 @@ func main() {
 	rep.Coverage["violating_cases"] = violCount
 	rep.Coverage["states_per_family"] = perFamily
 	rep.Coverage["exhaustive"] = only == nil
-	rep.Coverage["rule"] = "cases = every message of msggen.BodySpace ∪ HeaderSpace x every logger variant x every read mode (+ one skip-logging run per skipping variant, + one snapshot re-parse per messageview variant); states = distinct (message, logger variant) pairs; a message is non-trivial when its body is non-empty and it is chunked, close-delimited or content-coded (the paths where a logger can re-frame or mis-decode); failing-body family: every message of a sub-space (non-empty bodies x framings x {identity, gzip} x 3 content types) x fault kind {sender closes, connection error} x cut offsets (every offset of a body region of at most 96 bytes, else ±1 around each structural boundary) x 3 read modes x every logger variant; oracle: pass-through variants identical to the unlogged twin, buffering variants still fail and write only a prefix of the body"
-	rep.Coverage["bounds"] = fmt.Sprintf("tier %s: body space = {request POST, response 200} x sizes %v x {Content-Length, close (responses), chunked x chunk lists %v x trailers 0..2 (coinciding chunk lists emitted once)} x content codings %v x content types requests %v / responses %v; header space = requests {GET,POST,PUT} x HTTP/1.1,1.0 x query pool x cookie pool x repeated/empty header pool x {CL 0, CL 5, chunked 0, chunked 5}, responses {200,201,301,302,404,204,304} x versions x Set-Cookie pool x header pool x Location pool x {CL, chunked, close} x sizes {0,5}, 204/304 with and without Content-Encoding: gzip; read-buffer sizes {1 (61 for bodies > 4200 bytes), 511, 4097, 65536, bytes.Buffer growth, bufio 4096}",
+	rep.Coverage["rule"] = "cases = every message of msggen.BodySpace ∪ HeaderSpace ∪ EdgeSpace x every logger variant x every read mode (+ one skip-logging run per skipping variant, + one snapshot re-parse per messageview variant); states = distinct (message, logger variant) pairs; a message is non-trivial when its body is non-empty and it is chunked, close-delimited or content-coded (the paths where a logger can re-frame or mis-decode); failing-body family: every message of a sub-space (non-empty bodies x framings x {identity, gzip} x 3 content types) x fault kind {sender closes, connection error} x cut offsets (every offset of a body region of at most 96 bytes, else ±1 around each structural boundary) x 3 read modes x every logger variant; oracle: pass-through variants identical to the unlogged twin, buffering variants still fail and write only a prefix of the body; history family: every ordered pair (thorough: and triple) of messages over a pool of 11 x 7 logger set-ups (one logger object for all messages, one reused MessageView, mixed families) x forwarding order {fifo, lifo} x 2 read modes, all messages logged before the first is forwarded, a response that follows a request belongs to that request's exchange; oracle identity with the unlogged twins, and the reused view's last snapshot re-parses to the message it was loaded with last; stack family: every ordered pair of the 13 logger variants (thorough: and every triple over 6 representatives) attached to the same message of a sub-space x 2 read modes; oracle identity with the unlogged twin, no logger error, every logger recorded the exchange"
+	rep.Coverage["bounds"] = fmt.Sprintf("tier %s: body space = {request POST, response 200} x sizes %v x {Content-Length, close (responses), chunked x chunk lists %v x trailers 0..2 (coinciding chunk lists emitted once)} x content codings %v x content types requests %v / responses %v; header space = requests {GET,POST,PUT} x HTTP/1.1,1.0 x query pool x cookie pool x repeated/empty header pool x {CL 0, CL 5, chunked 0, chunked 5}, responses {200,201,301,302,404,204,304} x versions x Set-Cookie pool x header pool x Location pool x {CL, chunked, close} x sizes {0,5}, 204/304 with and without Content-Encoding: gzip; edge space = request methods {GET,DELETE,PATCH,OPTIONS,PUT} with a body, content types {absent, unparseable, form with parameters / upper case / non-UTF-8 parameter name / unparseable, multipart with quoted / without boundary / empty and typed parts} x framings x {identity, gzip, zlib deflate, unknown coding}, non-UTF-8 bytes in a query value and a header value, 206 x codings x framings, 304 and answers to HEAD {200,404,301} with Content-Length / chunked framing headers and no body, Location on {200,201,404}; read-buffer sizes {1 (61 for bodies > 4200 bytes, 1021 for bodies > 70000 bytes), 511, 4097, 65536, bytes.Buffer growth, bufio 4096}",
 		tier, sizesFor(tier), chunkingsFor(tier), msggen.Encodings, msggen.RequestCTs, msggen.ResponseCTs)
 	rep.Assumptions = []string{
 		"Request.Write / Response.Write of the parsed message stand for what the proxy forwards (the proxy calls Response.Write itself and hands requests to http.Transport, which serialises them with the same transfer writer)",
@@ -876,15 +927,21 @@ func main() {
 		"snapshot equality is judged on the net/http parse (start line, Host, headers, ContentLength/TransferEncoding, body, trailers, no trailing bytes); a redundant Content-Length header line is not a difference",
 		"for snapshot variants configured to skip the body only the head of the snapshot is required to parse and match",
 		"trailers are always announced by a Trailer header (net/http drops unannounced trailers of an unlogged message)",
+		"a message that has no body because of its status (304) or because it answers a HEAD request is compared on everything net/http writes after the head (nothing, or for a chunked 304 the last-chunk line net/http itself emits)",
+		"history family: 'in flight at once' is modelled as logging every message of the history before forwarding the first; the loggers run on one goroutine (what survives between two calls is the subject, not data races)",
 	}
 	rep.Finish()
 }
 
-// sized resolves the "small" buffer: one byte for bodies of at most 4200 bytes, 61 bytes above (a
-// byte-at-a-time pass over a large body costs tens of milliseconds per case through marbl's frame channel).
+// sized resolves the "small" buffer: one byte for bodies of at most 4200 bytes, 61 bytes up to 70000 bytes
+// and 1021 bytes above (a byte-at-a-time pass over a large body costs tens of milliseconds per case through
+// marbl's frame channel, a 61-byte pass over 1 MiB just as much).
 func sized(mode readMode, m *msggen.Msg) readMode {
 	if mode.N == 1 && len(m.Encoded) > 4200 {
 		mode.N = 61
+		if len(m.Encoded) > 70000 {
+			mode.N = 1021
+		}
 	}
 	return mode
 }
